@@ -167,8 +167,10 @@ class Spell:
     """case: lower|upper|mixed ; ws: 0..3 ; comment: ''|';'|'//'|'/*' ; radix: dec|0x|$|0b|oct|chr ;
     blank_before: 0..2 ; eol: '\n'|'\r\n'.  A deterministic per-occurrence counter varies 'mixed'."""
 
-    def __init__(self, case="lower", ws=0, comment="", radix="dec", blank_before=0, eol="\n"):
+    def __init__(self, case="lower", ws=0, comment="", radix="dec", blank_before=0, eol="\n", paren=None):
         self.case, self.ws, self.comment, self.radix, self.blank_before, self.eol = case, ws, comment, radix, blank_before, eol
+        # blanks inside parentheses: 0 none, 1 "( x )", 2 "(\tx )" and a blank between a function name and its parenthesis
+        self.paren = ws % 3 if paren is None else paren
         self.n = 0
 
     def word(self, w):
@@ -231,6 +233,11 @@ def expr_text(a, sp):
             else:
                 s = sp.sep()
                 out.append(s + t["s"] + s)
+        elif k == "lp":
+            before = " " if sp.paren == 2 and i > 0 and toks[i - 1]["k"] == "fn" else ""
+            out.append(before + "(" + ["", " ", "\t"][sp.paren])
+        elif k == "rp":
+            out.append(["", " ", " "][sp.paren] + ")")
         else:
             out.append(t["s"])
     return "".join(out)
